@@ -294,6 +294,13 @@ func init() {
 				model.Binary{Op: "/", L: model.Lit{V: model.Int(1)}, R: model.Lit{V: model.Int(0)}},
 				model.Binary{Op: "+", L: model.Lit{V: model.Int(1)}, R: model.Lit{V: model.Str("s")}},
 				model.Dot{X: model.Lit{V: model.Int(3)}, Name: "k"},
+				// the fault sits deeper: a later element, a later argument, a later object value, the taken arm
+				model.ArrLit{Elems: []model.Expr{model.Lit{V: model.Int(0)}, model.Binary{Op: "/", L: model.Lit{V: model.Int(1)}, R: model.Lit{V: model.Int(0)}}}},
+				model.Call{X: model.Lit{V: model.Bool(true)}, Name: "then", Args: []model.Expr{model.Lit{V: model.Int(1)}, model.Var{Name: "undefinedName"}}},
+				model.Call{X: model.Lit{V: model.Str("abc")}, Name: "truncate", Args: []model.Expr{model.Lit{V: model.Int(50)}, model.Binary{Op: "%", L: model.Lit{V: model.Int(1)}, R: model.Lit{V: model.Int(0)}}}},
+				model.Dot{X: model.ObjLit{Keys: []string{"a", "b"}, Vals: []model.Expr{model.Lit{V: model.Int(1)}, model.Var{Name: "undefinedName"}}}, Name: "a"},
+				model.Ternary{C: model.Lit{V: model.Int(1)}, A: model.Var{Name: "undefinedName"}, B: model.Lit{V: model.Int(1)}},
+				model.Call{X: model.Call{X: model.ArrLit{}, Name: "append", Args: []model.Expr{model.Lit{V: model.Int(1)}, model.Var{Name: "undefinedName"}}}, Name: "len"},
 			}
 			type ecell struct {
 				shape  ifShape
@@ -416,6 +423,28 @@ func init() {
 					if !got.Panicked && (got.Err != nil || got.Out != want) {
 						c.Violation("native-condition:"+nc.name, fmt.Sprintf("with cnd = %s the render gave %s, want %q", nc.name, got.Describe(), want), map[string]any{"source": src, "cnd": nc.name})
 					}
+				}})
+			// (5c) conditions that compare strings holding quote characters with literals in either quote style
+			quoted := []string{"it's", "O'Brien", "say \"hi\"", "'", "\"", "a'b\"c", "plain"}
+			secs = append(secs, core.Section{Name: "quoted-string-conditions", Exhaustive: true, N: len(quoted) * len(quoted) * 2 * 2,
+				Run: func(c *core.Ctx, i int) {
+					q := "\"'"[i%2]
+					i /= 2
+					op := []string{"==", "!="}[i%2]
+					i /= 2
+					held, written := quoted[i%len(quoted)], quoted[i/len(quoted)]
+					data := map[string]model.Value{"name": model.Str(held)}
+					cond := model.Binary{Op: op, L: model.Var{Name: "name"}, R: model.StrLit{S: written, Quote: q}}
+					lenCond := model.Binary{Op: "==", L: model.Call{X: model.StrLit{S: written, Quote: q}, Name: "len"}, R: model.Lit{V: model.Int(int64(len([]rune(written))))}}
+					body := []model.Stmt{model.Text{S: "["}, model.Print{E: model.Var{Name: "v"}}, model.BreakIf{E: cond}, model.Text{S: "]"}}
+					prog := []model.Stmt{model.Text{S: "<"},
+						model.If{Conds: []model.Expr{cond}, Bodies: [][]model.Stmt{{model.Text{S: "same"}}}, Else: []model.Stmt{model.Text{S: "other"}}}, model.Text{S: "|"},
+						model.If{Conds: []model.Expr{model.Lit{V: model.Int(0)}, cond}, Bodies: [][]model.Stmt{{model.Text{S: "never"}}, {model.Text{S: "second"}}}}, model.Text{S: "|"},
+						model.Print{E: model.Ternary{C: cond, A: model.Lit{V: model.Str("T")}, B: model.Lit{V: model.Str("F")}}}, model.Text{S: "|"},
+						model.Each{Var: "v", Arr: literalOf(model.Arr(model.Int(1), model.Int(2))), Body: body}, model.Text{S: "|"},
+						model.If{Conds: []model.Expr{lenCond}, Bodies: [][]model.Stmt{{model.Text{S: "len ok"}}}, Else: []model.Stmt{model.Text{S: "len wrong"}}},
+						model.Text{S: ">"}}
+					judgeProgram(c, prog, data, "quoted-cond", false)
 				}})
 			// (6) seeded random nestings
 			n, depth := 6000, 4
